@@ -62,6 +62,37 @@ func (t Transcript) Equal(u Transcript) bool {
 	return true
 }
 
+// ---- retained result slices ---------------------------------------------------------------------
+// The []byte Transform.Read returned is kept WITHOUT copying, next to a copy taken at return
+// time.  CheckRetained compares the two after more Reads (of the same and of other transforms)
+// have happened: a result that changed after it was handed out is a failure.
+type retainedRec struct {
+	raw  []byte
+	copy string
+	what string
+}
+
+var retainedAll []retainedRec
+
+func retain(raw []byte, what string) string {
+	cp := string(raw)
+	retainedAll = append(retainedAll, retainedRec{raw: raw, copy: cp, what: what})
+	return cp
+}
+
+// CheckRetained reports every retained slice whose content no longer equals what Read returned,
+// and forgets the slices checked.
+func CheckRetained() []string {
+	var bad []string
+	for _, x := range retainedAll {
+		if string(x.raw) != x.copy && len(bad) < 5 {
+			bad = append(bad, fmt.Sprintf("%s: Read returned %q, the same slice now holds %q", x.what, x.copy, string(x.raw)))
+		}
+	}
+	retainedAll = retainedAll[:0]
+	return bad
+}
+
 // Records drops the terminal entry.
 func (t Transcript) Records() Transcript {
 	if n := len(t); n > 0 && (t[n-1].Kind == "eof" || t[n-1].Kind == "fatal") {
@@ -237,7 +268,7 @@ func (c *Compiled) RunReal(input []byte, ext map[string]string) (tr Transcript) 
 		b, err := t.Read()
 		switch {
 		case err == nil:
-			e := Entry{Kind: "rec", JSON: string(b)}
+			e := Entry{Kind: "rec", JSON: retain(b, fmt.Sprintf("result %d", i))}
 			if raw, rerr := t.RawRecord(); rerr == nil && raw != nil {
 				e.Sum = raw.Checksum()
 			} else {
@@ -253,6 +284,103 @@ func (c *Compiled) RunReal(input []byte, ext map[string]string) (tr Transcript) 
 		}
 	}
 	return append(tr, Entry{Kind: "cap"})
+}
+
+// RunUnretained is RunReal without the (unsynchronised) retained-slice bookkeeping: for runs in
+// several goroutines at once.
+func (c *Compiled) RunUnretained(input []byte, ext map[string]string) (tr Transcript) {
+	defer func() {
+		if r := recover(); r != nil {
+			tr = append(tr, Entry{Kind: "panic", Msg: fmt.Sprint(r)})
+		}
+	}()
+	t, err := c.Schema.NewTransform("in", bytes.NewReader(input), &transformctx.Ctx{ExternalProperties: ext})
+	if err != nil {
+		return Transcript{{Kind: "fatal", Msg: err.Error()}}
+	}
+	for i := 0; i < maxReads(input); i++ {
+		b, err := t.Read()
+		switch {
+		case err == nil:
+			e := Entry{Kind: "rec", JSON: string(b)}
+			if raw, rerr := t.RawRecord(); rerr == nil && raw != nil {
+				e.Sum = raw.Checksum()
+			}
+			tr = append(tr, e)
+		case errs.IsErrTransformFailed(err):
+			tr = append(tr, Entry{Kind: "fail", Msg: err.Error()})
+		case err == io.EOF:
+			return append(tr, Entry{Kind: "eof"})
+		default:
+			return append(tr, Entry{Kind: "fatal", Msg: err.Error()})
+		}
+	}
+	return append(tr, Entry{Kind: "cap"})
+}
+
+// RunInterleaved reads two transforms alternately (k1 Reads of the first, then k2 of the second,
+// and so on), keeping every returned slice; the transcripts must be the ones of the solo runs.
+func RunInterleaved(c1 *Compiled, in1 []byte, ext1 map[string]string, c2 *Compiled, in2 []byte, ext2 map[string]string, k1, k2 int) (tr1, tr2 Transcript) {
+	defer func() {
+		if r := recover(); r != nil {
+			tr1 = append(tr1, Entry{Kind: "panic", Msg: fmt.Sprint(r)})
+		}
+	}()
+	t1, err1 := c1.Schema.NewTransform("in1", bytes.NewReader(in1), &transformctx.Ctx{ExternalProperties: ext1})
+	t2, err2 := c2.Schema.NewTransform("in2", bytes.NewReader(in2), &transformctx.Ctx{ExternalProperties: ext2})
+	if err1 != nil || err2 != nil {
+		return Transcript{{Kind: "fatal"}}, Transcript{{Kind: "fatal"}}
+	}
+	done1, done2 := false, false
+	step := func(t omniparser.Transform, tr *Transcript, done *bool, what string) {
+		if *done {
+			return
+		}
+		b, err := t.Read()
+		switch {
+		case err == nil:
+			e := Entry{Kind: "rec", JSON: retain(b, what)}
+			if raw, rerr := t.RawRecord(); rerr == nil && raw != nil {
+				e.Sum = raw.Checksum()
+			} else {
+				e.Sum = "<no raw record>"
+			}
+			*tr = append(*tr, e)
+		case errs.IsErrTransformFailed(err):
+			*tr = append(*tr, Entry{Kind: "fail", Msg: err.Error()})
+		case err == io.EOF:
+			*tr = append(*tr, Entry{Kind: "eof"})
+			*done = true
+		default:
+			*tr = append(*tr, Entry{Kind: "fatal", Msg: err.Error()})
+			*done = true
+		}
+	}
+	for n := 0; n < maxReads(in1)+maxReads(in2) && !(done1 && done2); n++ {
+		for i := 0; i < k1; i++ {
+			step(t1, &tr1, &done1, "interleaved transform 1")
+		}
+		for i := 0; i < k2; i++ {
+			step(t2, &tr2, &done2, "interleaved transform 2")
+		}
+	}
+	return tr1, tr2
+}
+
+// BurnIDs advances the process-wide node ID counter by about n (create + recycle).
+func BurnIDs(n int) {
+	for n > 0 {
+		k := 64
+		if n < k {
+			k = n
+		}
+		root := idr.CreateNode(idr.ElementNode, "burn")
+		for i := 1; i < k/2; i++ {
+			idr.AddChild(root, idr.CreateNode(idr.TextNode, "x"))
+		}
+		idr.RemoveAndReleaseTree(root)
+		n -= k
+	}
 }
 
 // RunOwn is the ingester loop of extensions/omniv21/ingester.go + the classification of
